@@ -6,6 +6,48 @@ STUBS = [("poulpy_hal::source::Source::new", "crate::c19::source_new_stub"), ("p
 G = "poulpy-core/src/layouts/compressed/glwe.rs"
 
 
+ENC_STUBS = [("poulpy_hal::source::Source::new", "crate::c19_enc::source_new_model"), ("poulpy_hal::source::Source::branch", "crate::c19_enc::source_branch_model"),
+             ("poulpy_hal::source::Source::next_u64n", "crate::c19_enc::next_u64n_model"), ("poulpy_cpu_ref::reference::znx::znx_add_normal_f64_ref", "crate::c19_enc::add_normal_model"),
+             ("f64::exp2", "crate::stubs::exp2_stub"), ("f64::log2", "crate::stubs::log2_stub"), ("std::fmt::format", "crate::stubs::fmt_stub"),
+             ("poulpy_cpu_ref::hal_defaults::scratch::take_slice_aligned", "crate::stubs::take_slice_aligned_stub")]
+PROBE2 = ["hk_core/src/probe_full.rs: Module<Probe> at N=2 (size-1 FFT = identity, exact integer leaf kernels)", "poulpy-cpu-ref/src/hal_defaults/*.rs", "poulpy-cpu-ref/src/reference/fft64/{vec_znx_dft,svp,vec_znx_big}.rs"]
+
+
+def enc_instances():
+    import c01
+    out = []
+    for b, k in ((12, 12), (17, 35), (12, 13)):
+        size = -(-k // b)
+        for rank in (1, 2):
+            for variant, nsym in [(v, ns) for v in (0, 2) for ns in (1, 999)]:
+                if nsym == 999 and not (variant == 0 and rank == 1):
+                    continue
+                sp, sec = c01.secret_code(2, rank, variant)
+                enc, _ = c01.glwe_tmp(2, size)
+                ar = (enc + 192 + 7) // 8
+                out.append(Instance(crate="hk_core", family="compressed.glwe_encrypt_vs_full", name=f"c19_glwe_enc_b{b}_k{k}_r{rank}_v{variant}_{'all' if nsym == 999 else 'sym1'}",
+                                    call=f"crate::c19_enc::glwe_compressed_vs_full::<{b}, {k}, {ar}>({rank}, {sp}, {nsym})", unwind=max(2 * 2 * (rank + 1) * size, 32) + 10,
+                                    params={"n": 2, "base2k": b, "k": k, "rank": rank, "secret": sec},
+                                    symbolic=["one seed byte", "error values", "prior receiver content", "plaintext digits: 1 word (quick) / all + stream table entries (thorough)"], stubs=ENC_STUBS,
+                                    functions=["poulpy-core/src/encryption/compressed/glwe_ct.rs::glwe_compressed_encrypt_sk", "poulpy-core/src/layouts/compressed/glwe.rs::decompress_glwe", "poulpy-core/src/encryption/glwe.rs::glwe_encrypt_sk / glwe_encrypt_sk_internal"] + PROBE2,
+                                    timeout=3600 if nsym == 999 else 600, mem_gb=24, core=(b, k, rank, variant) in ((17, 35, 2, 0), (12, 12, 1, 0)) and nsym == 1))
+    for b, k, dsize, dnum in ((12, 36, 1, 2), (12, 36, 2, 1), (12, 60, 2, 2), (12, 48, 3, 1), (8, 40, 1, 4)):
+        size = -(-k // b)
+        for ri, ro, nsym in [(a, c, ns) for (a, c) in ((1, 1), (2, 1), (1, 2), (2, 2)) for ns in (1, 999)]:
+            if nsym == 999 and (ri, ro) != (2, 1):
+                continue
+            sp, sec = c01.secret_code(2, ro, 0)
+            ar = (8 * 2 * size * 4 + 24 * 2 * 2 + 512 + 7) // 8
+            out.append(Instance(crate="hk_core", family="compressed.gglwe_encrypt_cells", name=f"c19_gglwe_enc_b{b}_k{k}_ds{dsize}_dn{dnum}_r{ri}{ro}_{'all' if nsym == 999 else 'sym1'}",
+                                call=f"crate::c19_enc::gglwe_compressed_cells::<{b}, {k}, {dsize}, {dnum}, {ar}>({ri}, {ro}, {sp}, {nsym})", unwind=max(2 * 2 * (ro + 1) * size, 33, dnum * ri + 1) + 10,
+                                params={"n": 2, "base2k": b, "k": k, "dsize": dsize, "dnum": dnum, "rank_in": ri, "rank_out": ro, "secret": sec},
+                                symbolic=["plaintext coefficients in [-4,4]: 1 (quick) / all + one seed byte (thorough)"], stubs=ENC_STUBS,
+                                functions=["poulpy-core/src/encryption/compressed/gglwe.rs::gglwe_compressed_encrypt_sk", "poulpy-core/src/layouts/compressed/gglwe.rs::decompress_gglwe", "poulpy-core/src/encryption/gglwe.rs::gglwe_encrypt_sk",
+                                           "poulpy-core/src/decryption/glwe.rs::glwe_decrypt_default"] + PROBE2,
+                                timeout=3600 if nsym == 999 else 1200, mem_gb=24, core=(b, k, dsize, dnum, ri, ro) in ((12, 60, 2, 2, 1, 1), (12, 36, 2, 1, 2, 1)) and nsym == 1))
+    return out
+
+
 def instances(tier, seed):
     out = []
     for b in (12, 17):
@@ -21,6 +63,7 @@ def instances(tier, seed):
                                         symbolic=["compressed body", "stored seed (32 bytes)", "mask words", "prior receiver content"], stubs=STUBS, should_panic=refuse,
                                         functions=[f"{G}::GLWEDecompress::decompress_glwe"], timeout=1200, mem_gb=16,
                                         core=(b == 17 and ((size, rank, rs) in ((2, 2, 2), (2, 2, 1), (1, 1, 1))))))
+    out += enc_instances()
     # de-duplicate names (rs may coincide for size 1)
     seen, res = set(), []
     for i in out:
@@ -31,8 +74,8 @@ def instances(tier, seed):
 
 
 META = {
-    "bounds": "GLWECompressed with n=2, base2k in {12,17}, 1-2 limbs, rank 1-2; receivers of equal layout (accepted) and of a different limb count (must be refused)",
-    "outside": "equality with standard encryption (compressed encryption runs DFT products: DESIGN §2.4), GGLWE/GGSW/key decompressors (they call decompress_glwe cell by cell; their own seed bookkeeping is not encoded), the cross-backend clause (reduces to C10)",
+    "bounds": "encryption side (Module<Probe>, N=2): decompress(glwe_compressed_encrypt_sk) == glwe_encrypt_sk under the stored seed limb for limb (base2k 12/17, k in {12,13,35}, rank 1-2); every cell of decompress(gglwe_compressed_encrypt_sk) decrypts to the plaintext of the same cell of gglwe_encrypt_sk (noise-free, dsize 1..3, dnum 1..4, ranks in/out 1..2) and the per-cell seeds are pairwise distinct; decompression side: GLWECompressed with n=2, base2k in {12,17}, 1-2 limbs, rank 1-2; receivers of equal layout (accepted) and of a different limb count (must be refused)",
+    "outside": "GGSW / switching / automorphism / tensor / LWE-related / blind-rotation key compressors, serialisation of compressed objects (C18 covers GLWECompressed), N > 2, the ChaCha8 generator itself (stream model: same seed -> same words, different seed -> different words, a re-created parent repeats its branch seeds), the cross-backend clause (reduces to C10)",
     "assumptions": ["Source::new replaced by a recording stub (real ChaCha needs cpuid), Source::next_u64n by a counting stub drawing symbolic words"],
-    "stubs": ["poulpy_hal::source::Source::new", "poulpy_hal::source::Source::next_u64n", "std::fmt::format"],
+    "stubs": ["poulpy_hal::source::Source::new / branch / next_u64n (stream model, hk_core/src/c19_enc.rs)", "znx_add_normal_f64_ref (deterministic error table)", "f64::exp2 / f64::log2", "std::fmt::format", "take_slice_aligned stand-in (see C12)"],
 }
